@@ -78,6 +78,21 @@ def binding():
         rej = not _accepted(v)
         ok &= rej
         print("    [%s] %-45s -> %s" % (originals[i][0][:28], desc, ("rejected: " + ", ".join(sorted(set(_clauses(v))))) if rej else "ACCEPTED (binding hole!)"))
+    # the exact-fraction transcription used for counts beyond TLC's range (harness/stv_mirror.py) is bound the same way: it accepts the
+    # recorded STV traces and rejects every corruption of them that ElectionTrace rejects (probability labels are not its business)
+    from . import stv_mirror as M
+    nm = 0
+    for k, (name, t) in enumerate(originals):
+        if t["cfg"]["rule"] == "STV":
+            good = not M.check_trace(t)
+            ok &= good
+            print("  transcription: %-40s %s" % (name[:40], "accepted" if good else "REJECTED %s" % M.check_trace(t)))
+    for k, (desc, i, m) in enumerate(muts):
+        if originals[i][1]["cfg"]["rule"] == "STV" and "label" not in desc:
+            nm += 1
+            p = M.check_trace(m)
+            ok &= bool(p)
+            print("    transcription [%s] %-45s -> %s" % (originals[i][0][:28], desc, ("rejected: " + ", ".join(sorted({c for c, _ in p}))) if p else "ACCEPTED (binding hole!)"))
     print("binding self-test:", "ok" if ok else "FAILED")
     return 0 if ok else 1
 
